@@ -1,4 +1,4 @@
 SPECIFICATION Spec
 CONSTANTS MaxNodes = 4 MaxPert = 1 Rich = FALSE
-INVARIANTS TypeOK TruthLocal TruthEq TruthSym RefOK MatchLaws
+INVARIANTS TypeOK TruthLocal TruthEq TruthSym Reflexive RefOK MatchLaws
 CHECK_DEADLOCK FALSE
